@@ -377,6 +377,8 @@ impl Case {
 	fn exact_delay_frames(&self) -> u64 {
 		((self.delay_ns as u128 * self.sr as u128) / 1_000_000_000u128) as u64
 	}
+	/// what the `f64` product gave before the line length was computed in integers (the repaired defect
+	/// delay-length-float-floor): only used to count how often the generated delay sits on that boundary
 	fn float_delay_frames(&self) -> u64 {
 		(Duration::from_nanos(self.delay_ns).as_secs_f64() * self.sr as f64) as usize as u64
 	}
@@ -403,7 +405,7 @@ impl Case {
 							what,
 							self.delay_ns,
 							self.sr,
-							self.float_delay_frames(),
+							self.exact_delay_frames().max(1),
 							short(line)
 						),
 						Kind::Reverb => format!("{} reverb sr={} | {}", what, self.sr, short(line)),
@@ -568,28 +570,23 @@ impl Case {
 			let g = if on_echo { amp.powi(k as i32) * wet_gain } else { 0.0 };
 			if on_echo && (self.impulse.0 != 0.0 || self.impulse.1 != 0.0) && g != 0.0 {
 				premise("echo_nonzero_echo_frames");
+				if l_exact != l_float {
+					premise("echo_at_f64_boundary");
+				}
 			}
 			let exp_l = g * self.impulse.0 as f64 + dry_gain * x.left as f64;
 			let exp_r = g * self.impulse.1 as f64 + dry_gain * x.right as f64;
 			let tol = |e: f64| 1e-5 * (k as f64 + 2.0) * e.abs() + 1e-37;
 			if (o.left as f64 - exp_l).abs() > tol(exp_l) || (o.right as f64 - exp_r).abs() > tol(exp_r) {
-				if l_exact != l_float {
-					out.oracle_fail(
-						"echo_time_boundary",
-						format!(
-							"delay_ns={} sr={} exact_frames={} line_frames={} (delay·fs is a whole number of frames; the f64 product rounds below it)",
-							self.delay_ns, self.sr, l_exact, l_float
-						),
-					);
-				} else {
-					out.oracle_fail(
-						"echo",
-						format!(
-							"frame {} expected {:e} {:e} got {:e} {:e} L={} | {}",
-							t, exp_l, exp_r, o.left, o.right, l_exact, short(line)
-						),
-					);
-				}
+				// the echo comes back after exactly ⌊delay·fs⌋ frames, also when delay·fs is a whole number
+				// of frames and the f64 product rounds below it (`f64_frames` differs there)
+				out.oracle_fail(
+					"echo",
+					format!(
+						"frame {} expected {:e} {:e} got {:e} {:e} L={} delay_ns={} sr={} f64_frames={} | {}",
+						t, exp_l, exp_r, o.left, o.right, l_exact, self.delay_ns, self.sr, l_float, short(line)
+					),
+				);
 				self.echo_ok = false;
 				return;
 			}
@@ -936,7 +933,7 @@ fn gen_delay_case(rng: &mut Rng, thorough: bool, out: &mut Vec<String>, stats: &
 	}
 	out.push(format!("init {} {}", sr, ibs));
 	stats.hit("init");
-	let l = (Duration::from_nanos(ns).as_secs_f64() * sr as f64) as u64;
+	let l = ((ns as u128 * sr as u128) / 1_000_000_000u128) as u64;
 	if shape <= 7 {
 		// echo shape: an impulse, then silence for a few line lengths
 		stats.hit("shape_echo");
